@@ -19,7 +19,7 @@ FOCUS = PARAMS.get("focus", "annotations")
 FOCUS2 = PARAMS.get("focus2")
 SOURCE = "sub/REUSE.toml"
 
-STRS = ["", "x", "MIT", "MIT AND", "closest", "override", "**", "\\"]
+STRS = ["", "x", "MIT", "MIT AND", "closest", "override", "**", "\\", "()", "MIT AND ()"]
 INTS = [0, 1, 2, -1]
 TAGS = ["absent", "str", "int", "float", "bool", "datetime", "list", "table"]
 KEYS = ["version", "annotations", "path", "precedence", "SPDX-FileCopyrightText", "SPDX-License-Identifier"]
